@@ -24,6 +24,9 @@ CONSTANTS KBanks,        \* venue-backed banks explored
           KAmounts,      \* liquidity / collateral amounts
           KBorrowed,     \* values of the reserve's borrowed amount (venue interest)
           KMaxDepth,
+          SBanks,        \* Solend-backed banks explored
+          SAmounts,      \* liquidity / collateral amounts
+          SBorrowed,     \* values of the reserve's borrowed amount in whole units (venue interest)
           DBanks,        \* Drift-backed banks explored
           DAmounts,      \* token amounts
           DCums          \* values of the market's cumulative deposit interest (venue interest)
@@ -105,6 +108,74 @@ KWithdraw(an, bn, amt, all) ==
                                                    !.obligations[on] = [@ EXCEPT !.amount = BSub(@, c)]]
                             IN KDo(a, "ok", post, KObs(post, bn, an, {ut, r.vault}))
 
+
+
+\* ---- Solend --------------------------------------------------------------------------------------
+\* marginfi's side is the same as for Kamino (expected amounts from the scaled supplies, within one token); the venue's
+\* exact arithmetic runs on the 10^18-scaled total
+WAD18 == BPow10(18)
+SVenueTotalW(r) == NonNeg(BSub(BAdd(BMul(r.avail, WAD18), r.borrowed_wads), r.fees_wads))
+SVenueMint(r, l) == IF BIsZero(SVenueTotalW(r)) \/ BIsZero(r.supply) THEN l ELSE BFloorDiv(BMul(BMul(l, r.supply), WAD18), SVenueTotalW(r))
+SVenueRedeem(r, c) == IF BIsZero(r.supply) THEN BZero ELSE BMin(BFloorDiv(BMul(c, SVenueTotalW(r)), BMul(r.supply, WAD18)), r.avail)
+
+SDeposit(an, bn, amt) ==
+  LET a == [op |-> "solend_deposit", acct |-> an, bank |-> bn, amount |-> amt]
+      b0 == st.banks[bn] ac == st.accts[an] rn == ResOf(bn) on == OblOf(bn) r == st.reserves[rn]
+      te == TagsErr(b0, ac.bal) se == BankStateErr(b0, "PausedOrReduce")
+      l == BOfInt(amt)
+      exp == ExpectL2C(r, l)
+  IN IF ~Fresh(r) THEN Fail(a, "err")                                  \* SolendReserveStale (account constraint)
+     ELSE IF te # "ok" THEN Fail(a, te)
+     ELSE IF se # "ok" THEN Fail(a, se)
+     ELSE IF Disabled(an) \/ InRecv(an) THEN Fail(a, "AccountDisabled")
+     ELSE IF exp = None THEN Fail(a, "err")
+     ELSE LET ut == UserTok(an, bn) IN
+          IF BLt(TokOf(st, ut), l) THEN Fail(a, "err")
+          ELSE LET c == SVenueMint(r, l) IN
+               IF BGt(AbsDiff(c, exp), BOne) THEN Fail(a, "SolendDepositFailed")
+               ELSE LET foc == FindOrCreate(ac.bal, bn, b0.key, b0.cfg.asset_tag, Now) IN
+                    IF IsErr(foc) THEN Fail(a, foc.err)
+                    ELSE LET x == ImplIncrease(b0, foc[1], foc[2], FOfBig(c), "DepositOnly", Now) IN
+                         IF IsErr(x) THEN Fail(a, x.err)
+                         ELSE LET b2 == ImplUpdateCache(x.b, Now)
+                                  post == [st EXCEPT !.banks[bn] = b2, !.accts[an].bal = SortBal(x.bal),
+                                                     !.tok = Xfer(@, MintOf(bn), ut, r.vault, l),
+                                                     !.reserves[rn] = [@ EXCEPT !.avail = BAdd(@, l), !.supply = BAdd(@, c)],
+                                                     !.obligations[on] = [@ EXCEPT !.amount = BAdd(@, c)]]
+                              IN KDo(a, "ok", post, KObs(post, bn, an, {ut, r.vault}))
+
+SWithdraw(an, bn, amt, all) ==
+  LET a == [op |-> "solend_withdraw", acct |-> an, bank |-> bn, amount |-> amt, all |-> all]
+      b0 == st.banks[bn] ac == st.accts[an] rn == ResOf(bn) on == OblOf(bn) r == st.reserves[rn]
+      se == BankStateErr(b0, "Paused")
+      i == FindSlot(ac.bal, bn)
+  IN IF ~Fresh(r) THEN Fail(a, "err")
+     ELSE IF se # "ok" THEN Fail(a, se)
+     ELSE IF Disabled(an) THEN Fail(a, "AccountDisabled")
+     ELSE IF i = 0 THEN Fail(a, "BankAccountNotFound")
+     ELSE LET x == IF all THEN ImplWithdrawAll(b0, ac.bal, i, Now) ELSE ImplDecrease(b0, ac.bal, i, FOfInt(amt), "WithdrawOnly", Now) IN
+          IF IsErr(x) THEN Fail(a, x.err)
+          ELSE LET c == IF all THEN x.pay ELSE BOfInt(amt)
+                   exp == ExpectC2L(r, c)
+               IN IF exp = None THEN Fail(a, "err")
+                  ELSE IF BLt(st.obligations[on].amount, c) THEN Fail(a, "err")
+                  ELSE LET got == SVenueRedeem(r, c) IN
+                       IF BGt(AbsDiff(got, exp), BOne) THEN Fail(a, "SolendWithdrawFailed")
+                       ELSE LET ut == UserTok(an, bn)
+                                b2 == ImplUpdateCache(x.b, Now)
+                                post == [st EXCEPT !.banks[bn] = b2, !.accts[an].bal = SortBal(x.bal),
+                                                   !.tok = Xfer(@, MintOf(bn), r.vault, ut, got),
+                                                   !.reserves[rn] = [@ EXCEPT !.avail = BSub(@, got), !.supply = BSub(@, c)],
+                                                   !.obligations[on] = [@ EXCEPT !.amount = BSub(@, c)]]
+                            IN KDo(a, "ok", post, KObs(post, bn, an, {ut, r.vault}))
+SRefresh(bn) ==
+  LET rn == ResOf(bn) a == [op |-> "solend_refresh", reserve |-> rn]
+      post == [st EXCEPT !.reserves[rn].slot = st.clock.slot]
+  IN Do(a, "ok", post, [reserves |-> [x \in {rn} |-> [slot |-> post.reserves[x].slot]]])
+SInterest(bn, bor) ==
+  LET rn == ResOf(bn) w == BMul(BOfInt(bor), WAD18) a == [op |-> "set_solend_reserve", reserve |-> rn, borrowed_wads |-> w]
+      post == [st EXCEPT !.reserves[rn].borrowed_wads = w]
+  IN Do(a, "ok", post, [reserves |-> [x \in {rn} |-> [borrowed_wads |-> post.reserves[x].borrowed_wads]]])
 
 \* ---- Drift ---------------------------------------------------------------------------------------
 MktOf(bn) == st.banks[bn].integ[1]
@@ -246,6 +317,10 @@ VNext ==
      \/ \E an \in Accts, bn \in KBanks : KWithdraw(an, bn, 0, TRUE)
      \/ \E bn \in KBanks : KRefresh(bn) \/ KDonate(bn)
      \/ \E bn \in KBanks, bor \in KBorrowed : KInterest(bn, bor)
+     \/ \E an \in Accts, bn \in SBanks, amt \in SAmounts : SDeposit(an, bn, amt) \/ SWithdraw(an, bn, amt, FALSE)
+     \/ \E an \in Accts, bn \in SBanks : SWithdraw(an, bn, 0, TRUE)
+     \/ \E bn \in SBanks : SRefresh(bn) \/ KDonate(bn)
+     \/ \E bn \in SBanks, bor \in SBorrowed : SInterest(bn, bor)
      \/ \E an \in Accts, bn \in DBanks, amt \in DAmounts : DDeposit(an, bn, amt) \/ DWithdraw(an, bn, amt, FALSE)
      \/ \E an \in Accts, bn \in DBanks : DWithdraw(an, bn, 0, TRUE)
      \/ \E bn \in DBanks : DRefresh(bn)
@@ -253,5 +328,7 @@ VNext ==
 VSpec == Init /\ [][VNext]_vars
 VView == <<View, [b \in KBanks |-> <<TokOf(st, st.banks[b].vault_liq), st.reserves[ResOf(b)].avail, st.reserves[ResOf(b)].supply, st.reserves[ResOf(b)].slot, st.reserves[ResOf(b)].borrowed_sf,
                                      st.obligations[OblOf(b)].amount>>], st.clock.slot,
+          [b \in SBanks |-> <<TokOf(st, st.banks[b].vault_liq), st.reserves[ResOf(b)].avail, st.reserves[ResOf(b)].supply, st.reserves[ResOf(b)].slot, st.reserves[ResOf(b)].borrowed_wads,
+                               st.obligations[OblOf(b)].amount>>],
           [b \in DBanks |-> <<TokOf(st, st.markets[MktOf(b)].vault), st.markets[MktOf(b)].cum, st.markets[MktOf(b)].ts, st.obligations[UsrOf(b)].amount>>]>>
 =============================================================================
